@@ -129,6 +129,13 @@ Fifth round (C08, C20, C07; one agent per property):
   absolute path retried under the directories), `seeded/C07-r4c07-m1/m2/m3` (year guard dropped in the rule evaluation; unchecked slice
   after `<`; plain subtraction in the leap-record check): caught by the machinery as it was.
 
+* `seeded/C15-r5c15-m1/m2/m3` (last successful directory index remembered in a `static AtomicUsize`; "is version 3" passed from header
+  to footer parsing through a `static AtomicBool`, wrong only while two decodes overlap; a `thread_local!` conversion memo keyed by
+  second and type index but not by zone), `seeded/C17-r5c17-m1/m2/m3` (`latest()` scanning the whole buffer; the scan stopping once
+  the buffer has overflowed; a fixed-zone fast path reporting one result for a zero-length buffer), `seeded/C19-r5c19-m1/m2/m3` (a
+  linear scan with `<` for `<=` only without `alloc`; a 64-bit fast path without `std`; `find_n` built on `find` with `alloc`): nine
+  out of nine caught by the machinery as it was.
+
 Two-site breakages (`seeded/C07-duo2-m1`, `C08-duo2-m2`, `C17-duo2-m3`): each consists of two edits in different functions that are
 harmless alone (a relaxed range check in `TimeZoneRef::new` + a hoisted index in `find`; explicit enum discriminants + a numeric version
 comparison; an up-front validation in `find_n` + a reordered range check in the shared search). All three combinations were caught by the
